@@ -146,6 +146,21 @@ fn case(tier: Tier, rng: &mut Rng, rep: &mut Report) {
         net.edges.clear();
         rep.count("networks_without_edges", 1);
     }
+    // one network in twelve lists some edges with a length of exactly zero (connectors): rows like any other for the
+    // loader. the application-level part, whose time model refuses zero lengths, is left out for these
+    let mut zero_lengths = false;
+    {
+        let mut rz = rng.fork(0xC151);
+        if rz.chance(1.0 / 12.0) && !net.edges.is_empty() {
+            zero_lengths = true;
+            for e in net.edges.iter_mut() {
+                if rz.chance(0.2) {
+                    e.len_m = 0.0;
+                }
+            }
+            rep.count("networks_with_zero_length_edges", 1);
+        }
+    }
     let gzip = rng.chance(0.4);
     let perm = rng.below(4);
     let extra = rng.chance(0.5);
@@ -206,7 +221,7 @@ fn case(tier: Tier, rng: &mut Rng, rep: &mut Report) {
     }
     rep.seen("file_modes", format!("{mode}|layout{perm}|{}", if extra { "extra_cols" } else { "min_cols" }));
     // (b) through the application and its bindings, plus row alignment of the per-edge tables (G8)
-    if net.ne() == 0 {
+    if net.ne() == 0 || zero_lengths {
         return;
     }
     if net.ne() <= 400 && rng.chance(0.5) {
